@@ -92,6 +92,41 @@ class C04(Prop):
                 if ctx.returns(r, "C04.words.unbounded", cls=cls):
                     self._cmp(ctx, "C04.words.unbounded", r.value, want, cls=cls, n=None)
 
+        # the same object after a public mutator: every transition in turn is removed from an automaton that has
+        # already answered (whatever it remembers must follow the change), then put back
+        n_, k_, trans, st, fi = case
+        if trans:
+            b = ctx.call(O.build_fa, case, "enfa", scheme)
+            if ctx.returns(b, "C04.build", cls="enfa"):
+                a = b.value
+                nm = G.names(scheme, n_)
+                sv = O.sym_values(k_)
+                ctx.collect(a.get_accepted_words, 2, limit=50)
+                ctx.call(a.is_empty)
+                for t in trans:
+                    lt = (nm[t[0]], "epsilon" if t[1] == 0 else sv[t[1]], nm[t[2]])
+                    rm = ctx.call(a.remove_transition, *lt)
+                    if not ctx.returns(rm, "C04.remove_transition"):
+                        break
+                    r2 = O.ref_from_case((n_, k_, tuple(x for x in trans if x != t), st, fi), scheme)
+                    kw = dict(cls="enfa", after="remove_transition%r" % (lt,))
+                    e = ctx.call(a.is_empty)
+                    if ctx.returns(e, "C04.is_empty", **kw):
+                        ctx.expect(e.value is r2.is_empty(), "C04.is_empty", got=e.value, want=r2.is_empty(), **kw)
+                    ac = ctx.call(a.is_acyclic)
+                    if ctx.returns(ac, "C04.is_acyclic", **kw):
+                        ctx.expect(ac.value is (not r2.has_reachable_cycle()), "C04.is_acyclic", got=ac.value, **kw)
+                    want = r2.words_upto(3)
+                    r = ctx.collect(a.get_accepted_words, 3, limit=len(want) + 2)
+                    if ctx.returns(r, "C04.words.bounded", n=3, **kw):
+                        self._cmp(ctx, "C04.words.bounded", r.value, want, n=3, **kw)
+                    if r2.language_finite():
+                        want = r2.all_words()
+                        r = ctx.collect(a.get_accepted_words, limit=len(want) + 2)
+                        if ctx.returns(r, "C04.words.unbounded", **kw):
+                            self._cmp(ctx, "C04.words.unbounded", r.value, want, n=None, **kw)
+                    ctx.call(a.add_transition, *lt)
+
     @staticmethod
     def _cmp(ctx, clause, got, want, **kw):
         try:
